@@ -4,8 +4,8 @@ tier=${1:-quick}
 cd "$(dirname "$0")/.."
 for id in C01 C02 C03 C04 C05 C06 C07 C08 C09 C10 C11 C12 C13 C14 C15 C16 C17 C18 C19 C20; do
   s=$(date +%s)
-  ./check $id --tier $tier > /tmp/runall_$id.log 2>&1; rc=$?
+  ./check $id --tier $tier $EXTRA > /tmp/runall_${tier}_$id.log 2>&1; rc=$?
   e=$(date +%s)
-  echo "$id rc=$rc $((e-s))s :: $(grep -E "^C[0-9]+ tier=" /tmp/runall_$id.log | tail -1)"
-  grep -E "^(VIOLATION|KNOWN-FINDING|INCONCLUSIVE|HARNESS-ERROR)" /tmp/runall_$id.log | cut -c1-200 | head -5
+  echo "$id rc=$rc $((e-s))s :: $(grep -E "^C[0-9]+ tier=" /tmp/runall_${tier}_$id.log | tail -1)"
+  grep -E "^(VIOLATION|KNOWN-FINDING|INCONCLUSIVE|HARNESS-ERROR)" /tmp/runall_${tier}_$id.log | cut -c1-200 | head -5
 done
